@@ -36,6 +36,12 @@ CHECKS = [
            "by CrpsTrace.tla.",
       note="integer-valued data (ties everywhere), 2^k scalings; finite values only",
       technique=TLA),
+ dict(property_id="C15", category="model_checking", design_ref="3.13",
+      text="Polygon.tla transcribes c_inside on integer coordinates and TLC checks it against an independent even-odd definition (ray of slope 1/M, "
+           "integer orientation tests) for every lattice polygon of the config and every non-boundary query point; every polygon is replayed through "
+           "points_inside_polygon (plain + exact variants) and cells_inside_polygon; random 3-12 vertex polygons are validated by PolygonTrace.tla.",
+      note="integer lattice coordinates, exactly representable translations/scalings; boundary points excluded exactly",
+      technique=TLA),
 ]
 
 _PENDING = "check not built yet in this round; see DESIGN.md section 3 for the planned specification"
